@@ -33,7 +33,7 @@ from .par import pmap
 from .tlc import SPEC_DIR, VERIF, MachineryError, cfg_text, run_tlc, scratch
 
 CACHE = os.path.join(VERIF, ".cache")
-FAMILIES = ("single", "pair", "size", "limit", "cfg")
+FAMILIES = ("single", "pair", "size", "limit", "cfg", "usage")
 
 # ------------------------------------------------------------------------------------------ building blocks
 RULES = "LT01,LT02,LT05,LT09,AM04"          # lint / fix scenarios
@@ -142,7 +142,10 @@ def concretise(rec: dict) -> dict:
                 seen[k] = ",".join(sorted(set(seen[k].split(",")) | set(v.split(","))))
             continue
         seen[k] = v
-    cfg = ["[sqlfluff]", "dialect = ansi", "templater = jinja", "encoding = utf-8"]
+    usage = rec.get("usage", "none")
+    dialect = {"unknown_dialect_cfg": ["dialect = nosuchdialect"], "no_dialect": [], "unknown_dialect_opt": []}.get(usage, ["dialect = ansi"])
+    cfg = ["[sqlfluff]"] + dialect + ["templater = nosuchtemplater" if usage == "bad_templater" else "templater = jinja",
+                                      "encoding = utf-8"]
     cfg += [f"{k} = {v}" for k, v in seen.items()]
     if rec["feu"]:
         cfg.append("fix_even_unparsable = True")
@@ -248,6 +251,7 @@ def install_recorders() -> None:
     Linter._lex_templated_file = staticmethod(_lex_templated_file)
     Linter.lint_fix_parsed = classmethod(lint_fix_parsed)
     logging.getLogger("sqlfluff.linter").addFilter(_LimitFilter())
+    _cleanup_logging()
     REC["installed"] = True
 
 
@@ -295,10 +299,16 @@ def _from_result(plan: dict, string_entry: bool) -> dict:
     return {"skipped": int(res.files_skipped), "viols": viols, "fixes_left": left}
 
 
+_NULL = logging.NullHandler()
+
+
 def _cleanup_logging() -> None:
+    """Drop the stream handlers each CLI invocation adds (they point at CliRunner's closed streams) and keep
+    the code under test from falling back to logging.lastResort (stderr noise); the limit filter stays."""
     lg = logging.getLogger("sqlfluff")
     for hd in list(lg.handlers):
         lg.removeHandler(hd)
+    lg.addHandler(_NULL)
 
 
 # ------------------------------------------------------------------------------------------ entry points
@@ -311,6 +321,21 @@ def _modified(texts: List[str], plan: dict) -> List[int]:
     return [i for i, (t, f) in enumerate(zip(texts, plan["files"]), start=1) if t != f["text"]]
 
 
+def _usage_args(rec: dict, paths: List[str], stdin: bool) -> Tuple[List[str], List[str]]:
+    """Path arguments and extra options of a usage-error scenario."""
+    u = rec.get("usage", "none")
+    extra: List[str] = []
+    if u == "missing_path" and not stdin:
+        paths = ["d1/nosuch.sql"]
+    elif u == "unknown_dialect_opt":
+        extra = ["--dialect", "nosuchdialect"]
+    elif u == "bad_option":
+        extra = ["--no-such-option"]
+    elif u == "format_rules":
+        extra = ["--rules", "LT01"]
+    return paths, extra
+
+
 def run_cli(root: str, rec: dict, plan: dict, stdin: bool) -> dict:
     from click.testing import CliRunner
     from sqlfluff.cli.commands import cli
@@ -319,10 +344,11 @@ def run_cli(root: str, rec: dict, plan: dict, stdin: bool) -> dict:
     _reset_files(root, plan)
     _rec_reset()
     args = [rec["cmd"]]
+    paths, extra = _usage_args(rec, [f["rel"] for f in plan["files"]], stdin)
     if stdin:
         args += ["-", "--stdin-filename", plan["files"][0]["rel"]]
     else:
-        args += [f["rel"] for f in plan["files"]]
+        args += paths
     if rec["cmd"] == "lint":
         args += ["--format", "json"]
         if rec["nofail"]:
@@ -330,6 +356,7 @@ def run_cli(root: str, rec: dict, plan: dict, stdin: bool) -> dict:
     if rec["procs"] > 1 and not stdin:
         args += ["--processes", str(rec["procs"])]
     args.append("--disable-progress-bar")
+    args += extra
     try:
         r = CliRunner().invoke(cli, args, input=plan["files"][0]["text"] if stdin else None)
     finally:
@@ -338,12 +365,14 @@ def run_cli(root: str, rec: dict, plan: dict, stdin: bool) -> dict:
     if r.exception is not None and not isinstance(r.exception, SystemExit):
         o["exc"] = type(r.exception).__name__ + ": " + str(r.exception)[:200]
     if stdin:
-        o["texts"] = [r.stdout] if rec["cmd"] != "lint" else [plan["files"][0]["text"]]
+        # a usage error prints a message, not a fixed text: there is no output text to compare
+        fixed_out = rec["cmd"] != "lint" and rec.get("usage", "none") == "none"
+        o["texts"] = [r.stdout] if fixed_out else [plan["files"][0]["text"]]
     else:
         o["texts"] = _read_files(root, plan)
     o["modified"] = _modified(o["texts"], plan)
     o.update(_from_result(plan, stdin))
-    if rec["cmd"] == "lint" and o["exc"] is None:
+    if rec["cmd"] == "lint" and o["exc"] is None and rec.get("usage", "none") == "none":
         # what the user sees: the JSON document on stdout
         try:
             doc = json.loads(r.stdout)
@@ -432,10 +461,11 @@ def run_subprocess(root: str, rec: dict, plan: dict, stdin: bool) -> dict:
     o = _obs("sub_stdin" if stdin else "sub_path")
     _reset_files(root, plan)
     args = [sys.executable, "-m", "sqlfluff", rec["cmd"]]
+    paths, extra = _usage_args(rec, [f["rel"] for f in plan["files"]], stdin)
     if stdin:
         args += ["-", "--stdin-filename", plan["files"][0]["rel"]]
     else:
-        args += [f["rel"] for f in plan["files"]]
+        args += paths
     if rec["cmd"] == "lint":
         args += ["--format", "json"]
         if rec["nofail"]:
@@ -443,6 +473,7 @@ def run_subprocess(root: str, rec: dict, plan: dict, stdin: bool) -> dict:
     if rec["procs"] > 1 and not stdin:
         args += ["--processes", str(rec["procs"])]
     args.append("--disable-progress-bar")
+    args += extra
     env = dict(os.environ)
     env["PYTHONPATH"] = os.path.join(sq.REPO, "src") + os.pathsep + env.get("PYTHONPATH", "")
     p = subprocess.run(args, cwd=root, env=env, capture_output=True, timeout=300,
@@ -450,11 +481,12 @@ def run_subprocess(root: str, rec: dict, plan: dict, stdin: bool) -> dict:
     o["exit"] = int(p.returncode)
     out = p.stdout.decode("utf-8", errors="backslashreplace")
     if stdin:
-        o["texts"] = [out] if rec["cmd"] != "lint" else [plan["files"][0]["text"]]
+        fixed_out = rec["cmd"] != "lint" and rec.get("usage", "none") == "none"
+        o["texts"] = [out] if fixed_out else [plan["files"][0]["text"]]
     else:
         o["texts"] = _read_files(root, plan)
     o["modified"] = _modified(o["texts"], plan)
-    if rec["cmd"] == "lint":
+    if rec["cmd"] == "lint" and rec.get("usage", "none") == "none":
         try:
             shown = {}
             for d in json.loads(out):
@@ -516,9 +548,17 @@ def record_one(job: Tuple[dict, bool]) -> dict:
         t0 = time.time()
         out: Dict[str, Any] = {"id": rec["id"], "plan": plan, "facts": None, "obs": [], "error": None}
         try:
-            out["facts"] = observe_facts(root, rec, plan)
+            usage = rec.get("usage", "none") != "none"
+            # a usage error stops before any file is looked at: the facts of the (never linted) file are moot
+            out["facts"] = ([{"V": [], "notree": False, "usage": True} for _ in plan["files"]] if usage
+                            else observe_facts(root, rec, plan))
             strings = len(rec["files"]) == 1 and rec["limkind"] != "byte"
-            if rec["procs"] > 1:
+            if usage:
+                out["obs"].append(run_cli(root, rec, plan, stdin=False))
+                if rec["usage"] != "missing_path":
+                    out["obs"].append(run_cli(root, rec, plan, stdin=True))
+                strings = False
+            elif rec["procs"] > 1:
                 # the recorder's pool workers are daemonic and cannot own a multiprocessing pool themselves:
                 # parallel runs are made as real `python -m sqlfluff` subprocesses only
                 out["obs"].append(run_subprocess(root, rec, plan, stdin=False))
@@ -565,11 +605,17 @@ def enumerate_scenarios(tier: str):
     return m, recs
 
 
-def counterexample(tier: str):
-    """TLC itself reporting that the transcribed counters do not refine the contract (expected on today's code)."""
-    return run_tlc("Outcome", cfg_text(constants={"Families": set(FAMILIES), "Wide": tier != "quick"},
-                                       invariants=["AlgoRefinesContract"]),
-                   workers=1, timeout=900, expect_violation=True)
+def counterexample(tier: str, invariant: str, families: Tuple[str, ...]):
+    """TLC itself reporting that the transcribed counters do not refine one clause of the contract
+    (expected while the corresponding defect is open): returns (TLCRun, counterexample text)."""
+    run = run_tlc("Outcome", cfg_text(constants={"Families": set(families), "Wide": tier != "quick"},
+                                      invariants=[invariant]),
+                  workers=1, timeout=900, expect_violation=True)
+    txt = ""
+    if run.violated:
+        i = run.stdout.find("Error: Invariant")
+        txt = run.stdout[i:i + 1200]
+    return run, txt
 
 
 def recording(tier: str, seed: int, recs: List[dict]) -> Tuple[List[dict], str]:
